@@ -261,6 +261,41 @@ def explicit_internal(data: bytes, rate: float = 1.0, seed: int = 0) -> bytes:
     return write_members(out)
 
 
+def respell_targets(data: bytes, style: str = "mixed", seed: int = 0) -> bytes:
+    """Equivalent spellings of internal relationship targets (RFC 3986 references that resolve to the same part): root-absolute
+    ("/ppt/media/image1.png"), "./x", "dir/../x".  python-pptx itself always writes the shortest relative form."""
+    r = random.Random(seed)
+    out = []
+    for n, blob in read_members(data):
+        pn = "/" + n
+        if refpkg._is_rels_item(pn):
+            src = refpkg._source_of_rels_item(pn)
+            root = refpkg.parse(blob)
+            ch = False
+            for el in root:
+                if not isinstance(el.tag, str) or el.get("TargetMode") == "External":
+                    continue
+                t = el.get("Target")
+                tgt = refpkg.resolve(src, t)
+                st = style if style != "mixed" else r.choice(["abs", "dot", "updown", "keep", "keep"])
+                if st == "abs":
+                    new_t = tgt
+                elif st == "dot":
+                    new_t = "./" + relref(src, tgt) if src != "/" else relref(src, tgt)
+                elif st == "updown":
+                    rel = relref(src, tgt)
+                    new_t = ("zz/../" + rel) if not rel.startswith("..") else rel
+                else:
+                    new_t = t
+                if new_t != t and refpkg.resolve(src, new_t) == tgt:
+                    el.set("Target", new_t)
+                    ch = True
+            if ch:
+                blob = etree.tostring(root, xml_declaration=True, encoding="UTF-8", standalone=True)
+        out.append((n, blob))
+    return write_members(out)
+
+
 def unlist_slide(data: bytes, k: int = 0) -> bytes:
     """A slide taken out of p:sldIdLst whose relationship and part stay behind (what several tools leave after "deleting" a slide):
     the listed slides' part names are then non-contiguous in presentation order."""
@@ -338,6 +373,8 @@ def apply(data: bytes, x: dict) -> bytes:
         return rewrite_slides(data, x.get("how", "strip_tblPr"))
     if kind == "drop_notes_master_rel":
         return drop_notes_master_rel(data)
+    if kind == "respell_targets":
+        return respell_targets(data, x.get("style", "mixed"), x.get("seed", 0))
     if kind == "unlist_slide":
         return unlist_slide(data, x.get("k", 0))
     if kind == "explicit_internal":
